@@ -506,6 +506,10 @@ fn cli_argv(ctx: &Ctx) {
             if with_env {
                 cmd = cmd.env("KESTREL_PASSWORD", "pw").env("KESTREL_NEW_PASSWORD", "pw2").env("KESTREL_KEYRING", "kr.txt");
             }
+            // an unrelated variable whose value is not UTF-8 is part of a perfectly ordinary environment
+            if (lo + k) % 3 != 0 {
+                cmd = cmd.env_os("LC_KMON_JUNK", std::ffi::OsString::from_vec(vec![b'c', b'a', b'f', 0xe9]));
+            }
             cmd.timeout = std::time::Duration::from_secs(30);
             let mut o = cmd.run();
             ctx.eval();
@@ -569,15 +573,26 @@ fn cli_structured_argv(ctx: &Ctx) {
             let _ = std::fs::create_dir_all(wd.path.join("sub"));
             wd.write("kr.txt", kr.as_bytes());
             wd.write("exists.bin", if *cmd == 1 { &kf[..] } else if *cmd == 3 { &pf[..] } else { b"plaintext" });
+            // where the keyring comes from rotates: -k, KESTREL_KEYRING, or nowhere at all
+            let kr_mode = (*i + *o) % 3;
             let mut args: Vec<&str> = match cmd {
-                0 => vec!["encrypt", paths[*i], "-t", "bob", "-f", "alice", "-k", "kr.txt", "--env-pass"],
-                1 => vec!["decrypt", paths[*i], "-t", "bob", "-k", "kr.txt", "--env-pass"],
+                0 if kr_mode == 0 => vec!["encrypt", paths[*i], "-t", "bob", "-f", "alice", "-k", "kr.txt", "--env-pass"],
+                0 => vec!["encrypt", paths[*i], "-t", "bob", "-f", "alice", "--env-pass"],
+                1 if kr_mode == 0 => vec!["decrypt", paths[*i], "-t", "bob", "-k", "kr.txt", "--env-pass"],
+                1 => vec!["decrypt", paths[*i], "-t", "bob", "--env-pass"],
                 2 => vec!["password", "encrypt", paths[*i], "--env-pass"],
                 _ => vec!["password", "decrypt", paths[*i], "--env-pass"],
             };
             args.push("-o");
             args.push(paths[*o]);
             let mut c = Cmd::new(&wd.path, &args).pass(if *cmd == 1 { "bpw" } else { "apw" });
+            if kr_mode == 1 {
+                c = c.env("KESTREL_KEYRING", "kr.txt");
+            }
+            {
+                use std::os::unix::ffi::OsStringExt;
+                c = c.env_os("LC_KMON_JUNK", std::ffi::OsString::from_vec(vec![b'c', b'a', b'f', 0xe9]));
+            }
             c.timeout = std::time::Duration::from_secs(60);
             let out = c.run();
             ctx.eval();
